@@ -120,6 +120,8 @@ def percentile(a, q, method="linear", internal_method="default", **kwargs):
                 FutureWarning,
             )
             internal_method = method
+            # the old spelling had ``interpolation="linear"`` as its default
+            method = "linear"
 
         if "interpolation" in kwargs:
             warnings.warn(
